@@ -14,6 +14,9 @@
 // another position than it was loaded at; the data the configuration is
 // normalised from is spelled nested, with dotted keys or mixed, at once or in
 // two layers (hist_test.go).
+// Target types include self-unpacking types (the Unpacker interfaces,
+// unpackers_test.go); references to literals may be chains of references
+// through the configuration and its Env configuration (deliver_test.go).
 // Sub-check "lowlevel" (lowlevel_test.go): faults hit through the getters,
 // Has, Remove, CountField, Set*, Child, incl. planted reference faults of
 // every shape.
@@ -117,10 +120,11 @@ const (
 	kDefault    = "default"         // setting removed whose struct default fails Validate()
 	kEmptyList  = "empty-list"      // a nonzero/required tag on a list of objects that loses all its elements (the list is still there)
 	kStructVal  = "validate-struct" // a present struct section one setting of which makes its Validate() fail
+	kReject     = "unpack-rejects"  // a value the Unpack method of a self-unpacking leaf type rejects (unpackers_test.go)
 	kNone       = "none"            // the type offers no place for a fault (discarded)
 )
 
-var allKinds = []string{kUnparsable, kRange, kWrongCont, kWrongPrim, kRef, kValidator, kRequired, kArrayLen, kDefault, kEmptyList, kStructVal}
+var allKinds = []string{kUnparsable, kRange, kWrongCont, kWrongPrim, kRef, kValidator, kRequired, kArrayLen, kDefault, kEmptyList, kStructVal, kReject}
 
 // Case is a valid (type, value) pair plus one fault.
 type Case struct {
@@ -160,7 +164,7 @@ const (
 // storesValue: the fault is a value put at the fault path (its source is
 // that of the call that stored it).
 func storesValue(kind string) bool {
-	return kind == kUnparsable || kind == kRange || kind == kWrongPrim || kind == kWrongCont
+	return kind == kUnparsable || kind == kRange || kind == kWrongPrim || kind == kWrongCont || kind == kReject
 }
 
 // setsValue: injecting the fault through Set* stores a value (at the fault
@@ -172,6 +176,8 @@ func setsValue(kind string) bool { return storesValue(kind) || kind == kStructVa
 
 type feat struct {
 	list, mapk, ptr, inline, dotted, emptyTag, cat bool
+	unp                                            string    // the place is (or lies inside) a value of this self-unpacking catalogue kind
+	unpLen                                         int       // length of the path of the enclosing self-unpacking struct section (0: none)
 	lists                                          []listPos // the lists the place is an element of (or lies below), outermost first
 }
 
@@ -219,15 +225,33 @@ func collect(td *gen.TD, tv *gen.TV, path []string, fd *gen.FD, direct, tagOK bo
 			for e.Kind == "ptr" {
 				e = e.Elem
 			}
+			if isCat(e) && e.Shape().IsLeaf() {
+				sh := *e.Shape()
+				ft.unp = e.Kind
+				e = &sh
+			} else if isUnpacker(e) {
+				ft.unp = e.Kind
+			}
 			*out = append(*out, site{path: path, node: nodeOf(e), td: e, absent: true, fd: fd, tagOK: tagOK, ft: ft})
 			return
 		}
 		collect(td.Elem, tv.Elems[0], path, fd, false, tagOK, ft, out)
 	case td.IsLeaf():
 		*out = append(*out, site{path: path, node: "leaf", td: td, tv: tv, absent: td.Kind == "regexp" && tv.Nil, fd: fd, direct: direct, tagOK: tagOK, ft: ft})
+	case isCat(td) && td.Shape().IsLeaf():
+		// a self-unpacking type of primitive kind: a leaf described by its shape
+		sh := *td.Shape()
+		ft.unp = td.Kind
+		*out = append(*out, site{path: path, node: "leaf", td: &sh, tv: tv, fd: fd, direct: direct, tagOK: tagOK, ft: ft})
 	case isCat(td):
+		if isUnpacker(td) {
+			ft.unp = td.Kind
+		}
 		*out = append(*out, site{path: path, node: "cat", td: td, tv: tv, fd: fd, direct: direct, tagOK: tagOK, ft: ft})
 		ft.cat = true
+		if isUnpacker(td) {
+			ft.unpLen = len(path)
+		}
 		collectFields(td.Shape(), tv, path, false, ft, out)
 	case td.Kind == "struct":
 		if len(path) > 0 {
@@ -442,6 +466,9 @@ func kindsFor(s *site) []string {
 			ks = append(ks, kWrongCont)
 		}
 		ks = append(ks, kRef)
+		if len(rejectPayloads(s.ft.unp)) > 0 && s.ft.unpLen == 0 {
+			ks = append(ks, kReject)
+		}
 		if s.fd != nil && s.tagOK {
 			// the tag is the fault: no other instance of the field may exist
 			if s.single && !s.absent && len(tagsFor(s.td, s.tv)) > 0 {
@@ -458,7 +485,7 @@ func kindsFor(s *site) []string {
 		}
 	case "struct", "map", "cat":
 		ks = append(ks, kWrongPrim)
-		if s.node == "cat" && s.direct {
+		if s.node == "cat" && s.direct && !isUnpacker(s.td) {
 			ks = append(ks, kDefault)
 		}
 		if s.node == "cat" && !s.absent && s.tv != nil {
@@ -466,7 +493,7 @@ func kindsFor(s *site) []string {
 		}
 	case "slice":
 		switch e := throughPtr(s.td.Elem); {
-		case e.Kind == "struct", e.Kind == "map", isCat(e):
+		case e.Kind == "struct", e.Kind == "map", isCat(e) && !e.Shape().IsLeaf():
 			ks = append(ks, kWrongPrim)
 			// nonzero/required are documented for slices ("not empty"); the code applies a field's tags to the
 			// elements read from the configuration as well (reading decision 18), so only lists of objects
@@ -499,6 +526,9 @@ func rangePayloads(base string) []*gen.Tree {
 		return []*gen.Tree{gen.Int(-1), gen.Float(1e30), gen.Float(-2.5), gen.Str("18446744073709551616")}
 	case base == "float32":
 		return []*gen.Tree{gen.Float(1e300), gen.Float(-1e300), gen.Str("1e300")}
+	case base == "dur":
+		// a number is a number of seconds: more than a time.Duration holds (9223372036 s)
+		return []*gen.Tree{gen.Uint(1 << 62), gen.Int(-(1 << 62)), gen.Uint(9223372037), gen.Int(-9223372037), gen.Float(1e30), gen.Float(-1e30)}
 	}
 	return nil
 }
@@ -512,7 +542,7 @@ func unparsablePayloads(base string) []string {
 	case base == "bool":
 		return []string{"zz!", "", "2", "%t", "it's"}
 	case base == "dur":
-		return []string{"1 parsec", "", "abc", "5", "90%", "5%s", "1 'h'"}
+		return []string{"1 parsec", "", "abc", "5", "90%", "5%s", "1 'h'", "90 seconds", "9223372037s"}
 	case base == "regexp":
 		return []string{"(", "[a", "(%", "[%d", "%v)"}
 	}
@@ -597,6 +627,7 @@ func genCase(t *rapid.T) Case {
 	if avoid("D45") {
 		replaceKind(c.T, "named:string", "string")
 	}
+	plantUnpackers(t, c.T)
 	c.V = gen.GenTV(t, cfg, c.T, false)
 	// the shared generator draws mostly flat types: put the struct below a
 	// named field, list, map, pointer, array or inline field of a new root
@@ -706,6 +737,17 @@ func genCase(t *rapid.T) Case {
 	if len(deep) > 0 && rapid.IntRange(0, 3).Draw(t, "deep") > 0 {
 		cands = deep
 	}
+	// kinds of targets that are converted by code of their own (durations, regular expressions, self-unpacking
+	// types) are rare among the leaves of a type: prefer them in a quarter of the cases
+	var special []int
+	for _, i := range cands {
+		if b := sites[i].td.Base(); sites[i].node == "leaf" && (b == "dur" || b == "regexp" || sites[i].ft.unp != "") || sites[i].node == "cat" && sites[i].ft.unp != "" {
+			special = append(special, i)
+		}
+	}
+	if len(special) > 0 && rapid.IntRange(0, 3).Draw(t, "special") == 0 {
+		cands = special
+	}
 	// histories edit the lists the faulted setting lies in: in a third of the cases prefer places below a list
 	wantHist = wantHist && c.Kind != kRef
 	if wantHist {
@@ -747,7 +789,9 @@ func genCase(t *rapid.T) Case {
 	case kEmptyList:
 		c.Tag = rapid.SampledFrom([]string{"nonzero", "required"}).Draw(t, "emptytag")
 	case kStructVal:
-		c.Payload = rapid.SampledFrom([]*gen.Tree{gen.Int(0), gen.Uint(0), gen.Str("0")}).Draw(t, "zero").Clone()
+		c.Payload = rapid.SampledFrom(structValPayloads(s.td)).Draw(t, "zero").Clone()
+	case kReject:
+		c.Payload = rapid.SampledFrom(rejectPayloads(s.ft.unp)).Draw(t, "rejected").Clone()
 	}
 	// delivery through variable expansion: the faulted value, or a collection
 	// around it, is the result of evaluating a ${...} expression
@@ -851,7 +895,7 @@ func (e errDiscard) Error() string { return e.why }
 func injectSet(cfg *ucfg.Config, c *Case, s *site, opts []ucfg.Option) error {
 	name := strings.Join(c.Path, ".")
 	switch c.Kind {
-	case kUnparsable, kRange, kWrongPrim:
+	case kUnparsable, kRange, kWrongPrim, kReject:
 		return setPrim(cfg, name, -1, c.Payload, opts)
 	case kWrongCont:
 		child, err := ucfg.NewFrom(c.Payload.Go(), opts...)
@@ -951,7 +995,7 @@ func editData(node interface{}, path []string, f func(old interface{}, present b
 // injectData applies the fault to the generic dump of the configuration.
 func injectData(data interface{}, c *Case, s *site) (interface{}, error) {
 	switch c.Kind {
-	case kUnparsable, kRange, kWrongPrim, kWrongCont, kRef:
+	case kUnparsable, kRange, kWrongPrim, kWrongCont, kRef, kReject:
 		return editData(data, c.Path, func(interface{}, bool) (interface{}, bool) { return c.Payload.Go(), false })
 	case kArrayLen:
 		var bad error
@@ -1496,9 +1540,41 @@ func runCase(c Case, r *runlog.R) error {
 			alts[0].tails = tailsFor(c.Meta, demand && d.Up == 0)
 		case "cfgref", "env":
 			// two settings are involved: the one that was read and the one
-			// holding the literal; the statement does not say which is "that
-			// setting", both (each with its own source) are accepted
-			alts = append(alts, expect{strings.Join(art.alt, "."), tailsFor(art.altSrc, demand)})
+			// holding the literal. For a fault INSIDE a referenced collection
+			// (Up > 0) and for faults reported for a collection as a whole the
+			// statement does not say which is "that setting": both (each with
+			// its own source) are accepted. When the setting that is read is
+			// itself the reference (Up == 0) and the fault is that its value
+			// does not convert into / is out of range for / fails the validator
+			// of / has the wrong type for the TARGET, the setting at fault is
+			// the one the target belongs to - the one that is read (the
+			// referenced setting has no target type; it is what it is) - however
+			// many references lead to the literal and wherever it lives.
+			if !(d.Up == 0 && readerAtFault(c.Kind)) {
+				alts = append(alts, expect{strings.Join(art.alt, "."), tailsFor(art.altSrc, demand)})
+			}
+		}
+	}
+	// a fault below a self-unpacking struct section is reported by the Unpack method of the section: the library
+	// names the section (with the source the section was loaded from) after whatever the method returned
+	innerTrim := 0
+	if s.ft.unpLen > 0 && len(c.Path) > s.ft.unpLen {
+		innerTrim = len(c.Path) - s.ft.unpLen
+		d := c.Deliver
+		text := d != nil && (d.Mode == "resolver" || d.Mode == "splice")
+		secTails := tailsFor(c.Meta, demand && !(text && d.Up > innerTrim))
+		if rl := c.Reloc; rl != nil {
+			if rl.How == "setchild-meta" && rl.Up == innerTrim {
+				secTails = append(secTails, " (source:'"+relocSource+"')")
+			}
+			if rl.Up < innerTrim {
+				// the moved node lies inside the section: the section that is read may be the one of the second configuration
+				secTails = append(tailsFor(c.Meta, false), "", " (source:'"+relocTargetSource+"')")
+			}
+		}
+		alts = append(alts, expect{trimPath(want, c.Path, innerTrim), secTails})
+		if d != nil && (d.Mode == "cfgref" || d.Mode == "env") && d.Up >= innerTrim {
+			alts = append(alts, expect{trimPath(strings.Join(art.alt, "."), c.Path, innerTrim), tailsFor(art.altSrc, demand)})
 		}
 	}
 	describe := func() string {
@@ -1662,6 +1738,14 @@ func runCase(c Case, r *runlog.R) error {
 	if s.node == "leaf" {
 		r.Class("leaf=" + s.td.Base())
 	}
+	if u := s.ft.unp; u != "" {
+		r.Class("self-unpacking target: " + unpackerIface[u])
+		r.ClassIf(innerTrim > 0, "self-unpacking target: fault below a self-unpacking section")
+		r.ClassIf(c.Kind == kRef && c.Ref != nil, "self-unpacking target: reference fault")
+		r.ClassIf(c.Kind == kReject || c.Kind == kStructVal, "self-unpacking target: the Unpack method rejects the value")
+		r.ClassIf(c.Deliver != nil, "self-unpacking target: delivered through an expression")
+		r.ClassIf(c.Meta != "", "self-unpacking target: with metadata")
+	}
 	if ue, ok := uerr.(ucfg.Error); ok && ue.Trace() != "" {
 		r.Class("critical error (with trace)")
 	}
@@ -1694,6 +1778,24 @@ func runCase(c Case, r *runlog.R) error {
 			for _, v := range via {
 				r.Class("splice piece via " + v)
 			}
+		}
+		if d.Mode == "cfgref" || d.Mode == "env" {
+			which := "the setting that was read"
+			if !strings.HasPrefix(named, want+"'") {
+				which = "the setting holding the literal"
+			}
+			r.Class(fmt.Sprintf("delivery by reference (up=%d%s): the message names %s", min(d.Up, 1), map[bool]string{true: "+", false: ""}[d.Up > 0], which))
+			demanded := d.Up == 0 && readerAtFault(c.Kind)
+			r.ClassIf(demanded, "delivery by reference: the setting that is read is demanded (the reference is the faulted setting; value/target mismatch)")
+			r.ClassIf(demanded && s.node == "leaf", "delivery by reference: the setting that is read is demanded, target kind "+s.td.Base())
+			hops := d.HopsCfg
+			if art.envExp {
+				hops += d.HopsEnv
+			}
+			r.ClassIf(hops > 0, fmt.Sprintf("delivery by reference: chain of %d references", 1+hops))
+			r.ClassIf(demanded && hops > 0, "delivery by reference: the setting that is read is demanded, chain of references")
+			r.ClassIf(art.envExp, "delivery by reference: references inside the Env configuration")
+			r.ClassIf(d.Nest != "", "delivery by reference: the literal is an element of a "+d.Nest)
 		}
 	} else {
 		r.Class("delivery=literal")
@@ -1763,7 +1865,27 @@ func runCase(c Case, r *runlog.R) error {
 	return nil
 }
 
+// readerAtFault: fault kinds that are a mismatch between a value and the target it is unpacked into.
+func readerAtFault(kind string) bool {
+	return kind == kUnparsable || kind == kRange || kind == kWrongCont || kind == kWrongPrim || kind == kValidator || kind == kReject
+}
+
 func isTyped(err error) bool { _, ok := err.(ucfg.Error); return ok }
+
+// structValPayloads: values of the setting n that make the section fail as a whole: Validate() of the catalogue
+// structs rejects 0, the Unpack method of the self-unpacking ones rejects 13.
+func structValPayloads(td *gen.TD) []*gen.Tree {
+	if isUnpacker(td) {
+		return []*gen.Tree{gen.Int(13), gen.Uint(13), gen.Str("13")}
+	}
+	return []*gen.Tree{gen.Int(0), gen.Uint(0), gen.Str("0")}
+}
+
+func trimPath(path string, segs []string, n int) string {
+	// path ends in the last n segments of segs: cut them off
+	tail := "." + strings.Join(segs[len(segs)-n:], ".")
+	return strings.TrimSuffix(path, tail)
+}
 
 func show(t *gen.Tree) string {
 	if t == nil {
@@ -1774,11 +1896,11 @@ func show(t *gen.Tree) string {
 
 var subFault = runlog.Register(&runlog.Sub[Case]{
 	Name: "unpack-fault",
-	Rule: "random struct type (reflect.StructOf: all primitive kinds, named variants, durations, regexps, pointers, slices, arrays, maps, nested/inline structs, dotted and derived config names, two catalogue structs with Validate) and a valid value of it; in 2/3 of the cases a third of the config names and map keys are replaced by names with format verbs (%, %d, %!v(x)), quotes, braces, blanks, tabs, backslashes, '$' and non-ASCII letters. value -> NewFrom gives a valid (config, type) pair (checked: the pair unpacks). ONE fault at a place chosen from the type descriptor: unparsable string (incl. texts with % that the reason echoes), out-of-range number, object/list for a primitive, primitive for an object, unresolvable reference (VarExp: missing variable, index out of range, self cycle, cycles of length 2 and 3 through auxiliary settings, reference into a cycle, path through a primitive, chain ending in a missing variable, ${x:?message}; plain or inside a splice; read with a resolver that knows nothing or without resolver), failing validate tag, required tag on a removed/nil setting, wrong fixed-array length, removed struct setting whose default fails Validate, a nonzero/required tag on a list of objects that loses all its elements (Remove one by one, or an empty list in the data), a present struct section one setting of which makes its Validate() fail (the section, or that setting, must be named); when a fault reported for a collection as a whole (array length, emptied list, struct Validate) is possible it is chosen in 1 of 4 cases. Injected through Set*/SetChild/Remove (the Set* call naming the same source, another source or none) or by editing the generic dump and normalising again. DELIVERY (40% of the non-reference faults): the faulted value, or a collection 1..n levels above it with the fault inside, is replaced by a ${...} expression that evaluates to it at read time: reference to a literal elsewhere in the configuration, value of an Env configuration, text returned by a resolver (parse.DefaultConfig, EnvConfig or IgnoreCommas), text spliced from 1-4 pieces each of which is literal text, a resolver variable, an Env value, a ${missing:default} or a reference to a string literal; the text is rendered in JSON, single-quoted, bare-word or comma-list style and checked to parse back into the same data. Optionally merged below a key / into a list / appended / prepended first, into a configuration loaded from the same or another source; with and without MetaData (source names incl. %, quotes, braces). RELOCATION (40% of the literal faults): before the fault is read, the loaded section that holds it - the node 0..n levels above the faulted setting, level 0 (the faulted collection itself) in half of the cases where that is a container - is obtained with Child (a list element by numeric segment or by idx, and attached the same way) or captured in a *ucfg.Config field of a struct its parent is unpacked into, optionally attached to an unrelated configuration first (SetChild without MetaData), and then (a) put in place of the valid section of a second configuration of the same shape loaded from the same source, another source or none - by SetChild without MetaData, by SetChild naming a third source, or by removing the valid section and merging the child in below its path - after which the fault is read through the second configuration AND through the configuration the section was taken from, or (b) attached to an unrelated configuration (SetChild with or without MetaData) and read through the configuration it was taken from. Moving a section does not change where its settings were loaded from: path and source are demanded as without the move (for the section a SetChild call with MetaData attached, the source of that call is accepted as well; for missing settings any source involved). HISTORY (a third of the cases are meant to get one: three quarters of those put the struct inside a list of 1-4 objects or a list of such lists and the place of the fault is chosen below a list if there is one; it exists for literal faults whose place has a list on its path or whose configuration was merged into a list - about 10% of all cases; exclusive with RELOCATION): before the fault is read, 1-3 calls edit the lists the faulted setting lies in or is an element of (any list on its path but fixed-size arrays, outermost to innermost): Remove of an element before or behind it, Merge with PrependValues / AppendValues of one more element, Merge (default policy) of a list that covers the elements before it, Set*/SetChild behind the end of the list (also one position further, which pads the list), Set*/SetChild over another element; elements addressed by numeric segment, by (name, idx) or through the Child handle of the list (\"\", idx), merges made at the root of the configuration that is read or into the Child handle of the list; the editing calls name the source of the configuration, another source or none; added elements are copies of valid elements (none are added when the fault is a tag that copies would fail as well). For a configuration that was merged into a list (move=list/append/prepend) the element before it may also be removed from the outer list after its handle was obtained. The same history is applied to the valid pair first (it must stay valid). The path demanded is the CURRENT position of the setting (indices recomputed by a model of the edits), the source is still the one it was loaded from. SPELLING (40% of all cases): the generic data the configuration is normalised from (the dump of the valid configuration; for inject=set the fault is then applied through Set*/Remove) is re-written with PathSep in mind: every object and list is, by a decision stored in the case, written nested, or with all its children under dotted keys of the parent (\"a.b.c\", list elements by numeric segments \"l.0.x\"), or piecewise (some children in a nested literal, the others under dotted keys; list elements left out of a literal are nil there); decisions compose over all levels, so keys are fully or partly dotted and objects and lists on the way are implied by dotted keys only. LAYERS (20%): the entries of the (spelled) top-level input are distributed over two inputs that are loaded one after the other (NewFrom, then Merge with the same options; entries contributing to the same list stay together). OPTIONS (40% of all cases): Option values are treated as values. With reuse (4 of 5 of these) ONE MetaData Option value per source name is created for the case and passed to every call naming that source - the load of the valid pair, the load of the faulted configuration, Set*, merges, history edits, relocation and the bystanders - instead of a fresh one per call; in half of them every call naming a source S gets two MetaData options ([MetaData{decoy} (reused), MetaData{S}] or [MetaData{} , MetaData{S}]); and 0-3 BYSTANDER configurations (one out-of-range setting each) are loaded - before anything else, between the valid and the faulted build, or after the faulted configuration got its final shape - by NewFrom, Merge or SetInt with 1-3 MetaData options in any order drawn from the reused values (own source of the case, decoy, Set*/outer/history/relocation sources), fresh named ones and the empty MetaData{}. None of this changes where a setting was loaded from: the source demanded for the fault of the case is unchanged, and after it was read every bystander must still name its setting with the source of the LAST MetaData option of the call that loaded it (none if that one is empty; options apply in order - the behaviour of the library, asserted). Neither changes the content: path and source are demanded as computed from the type descriptor, and whenever the data was re-spelled or layered the naming found in the message (path and source) must be IDENTICAL to what the same case reports when its data is written nested and loaded at once. Unpack - and, for half of the cases where a typed getter can not succeed on the faulted setting (Bool/Int/Uint/Float/String by target kind, Child for objects; list elements addressed by numeric segment or by idx), that getter - must return a ucfg.Error with Reason and Class whose message ENDS in accessing|in field '<path>'<source> with the full dotted path computed from the descriptor and <source> = (source:'<name>') of the call that loaded the faulted value. The source is demanded for values loaded with MetaData (also after merges into a configuration from another source, and for the ${...} setting itself when it expands to the faulted value); it is optional for missing settings, for values stored by Set* without MetaData and for elements inside a collection parsed from delivered text. For a reference to a literal / Env value both the setting that was read and the setting holding the literal (each with its own source) are accepted. Non-trivial: path depth >= 2, or below list/map/pointer/inline field, or moved by a merge, or delivered through an expression, or read after a relocation of its section or after a history of list edits (option reuse alone does not make a case non-trivial). Distinct: hash of the case.",
+	Rule: "random struct type (reflect.StructOf: all primitive kinds, named variants, durations, regexps, pointers, slices, arrays, maps, nested/inline structs, dotted and derived config names, two catalogue structs with Validate; SELF-UNPACKING targets: before the value is drawn about a fifth of the bool/int*/uint*/float*/string leaves are replaced by a named type of that family implementing ucfg.BoolUnpacker/IntUnpacker/UintUnpacker/FloatUnpacker/StringUnpacker and a third of the catalogue structs by a struct {n} implementing ucfg.Unpacker (it interprets the generic data it receives with NewFrom+Unpack of its own: errors of that are relative to its temporary configuration and have no source), ucfg.ConfigUnpacker (Unpack of the *Config it receives) or the reflective rule (Unpack(*T) with T convertible from ucfg.Config); these occur at any depth, below pointers, lists, arrays and maps like every other kind) and a valid value of it; in 2/3 of the cases a third of the config names and map keys are replaced by names with format verbs (%, %d, %!v(x)), quotes, braces, blanks, tabs, backslashes, '$' and non-ASCII letters. value -> NewFrom gives a valid (config, type) pair (checked: the pair unpacks). ONE fault at a place chosen from the type descriptor: unparsable string (incl. texts with % that the reason echoes), out-of-range number (for durations: a number of seconds, integer or float, beyond what time.Duration holds), a value the Unpack method of a self-unpacking leaf type rejects (13 / 13.5 / 'reject...' as number or text; the method returns a plain error, or a ucfg.Error the library gave it for data of its own that names another setting and no source; for a self-unpacking struct the setting n = 13 makes Unpack reject the section - plain error or a library error about another name of the section), object/list for a primitive, primitive for an object, unresolvable reference (VarExp: missing variable, index out of range, self cycle, cycles of length 2 and 3 through auxiliary settings, reference into a cycle, path through a primitive, chain ending in a missing variable, ${x:?message}; plain or inside a splice; read with a resolver that knows nothing or without resolver), failing validate tag, required tag on a removed/nil setting, wrong fixed-array length, removed struct setting whose default fails Validate, a nonzero/required tag on a list of objects that loses all its elements (Remove one by one, or an empty list in the data), a present struct section one setting of which makes its Validate() fail (the section, or that setting, must be named); when a fault reported for a collection as a whole (array length, emptied list, struct Validate) is possible it is chosen in 1 of 4 cases; when places whose target is converted by code of its own (time.Duration, *regexp.Regexp, self-unpacking types) are candidates they are preferred in 1 of 4 cases. A fault below a self-unpacking struct section is reported through the section's Unpack method: the message must end in the path and source of the SECTION (the library names the setting that was unpacked after whatever the method returned) or of the faulted setting itself; faults at self-unpacking leaves are demanded like at any leaf - whether the conversion before Unpack fails (incl. every shape of unresolvable reference) or the method. Injected through Set*/SetChild/Remove (the Set* call naming the same source, another source or none) or by editing the generic dump and normalising again. DELIVERY (40% of the non-reference faults): the faulted value, or a collection 1..n levels above it with the fault inside, is replaced by a ${...} expression that evaluates to it at read time: reference to a literal elsewhere in the configuration, value of an Env configuration (for both: the literal is a top-level setting, element 1 of a list or a member of an object there; in half of the cases the reference does not lead to it directly but through 1-2 further settings of the configuration that are references themselves and/or, for Env, 1-2 settings of the Env configuration - loaded with VarExp - that refer to the next), text returned by a resolver (parse.DefaultConfig, EnvConfig or IgnoreCommas), text spliced from 1-4 pieces each of which is literal text, a resolver variable, an Env value, a ${missing:default} or a reference to a string literal; the text is rendered in JSON, single-quoted, bare-word or comma-list style and checked to parse back into the same data. Optionally merged below a key / into a list / appended / prepended first, into a configuration loaded from the same or another source; with and without MetaData (source names incl. %, quotes, braces). RELOCATION (40% of the literal faults): before the fault is read, the loaded section that holds it - the node 0..n levels above the faulted setting, level 0 (the faulted collection itself) in half of the cases where that is a container - is obtained with Child (a list element by numeric segment or by idx, and attached the same way) or captured in a *ucfg.Config field of a struct its parent is unpacked into, optionally attached to an unrelated configuration first (SetChild without MetaData), and then (a) put in place of the valid section of a second configuration of the same shape loaded from the same source, another source or none - by SetChild without MetaData, by SetChild naming a third source, or by removing the valid section and merging the child in below its path - after which the fault is read through the second configuration AND through the configuration the section was taken from, or (b) attached to an unrelated configuration (SetChild with or without MetaData) and read through the configuration it was taken from. Moving a section does not change where its settings were loaded from: path and source are demanded as without the move (for the section a SetChild call with MetaData attached, the source of that call is accepted as well; for missing settings any source involved). HISTORY (a third of the cases are meant to get one: three quarters of those put the struct inside a list of 1-4 objects or a list of such lists and the place of the fault is chosen below a list if there is one; it exists for literal faults whose place has a list on its path or whose configuration was merged into a list - about 10% of all cases; exclusive with RELOCATION): before the fault is read, 1-3 calls edit the lists the faulted setting lies in or is an element of (any list on its path but fixed-size arrays, outermost to innermost): Remove of an element before or behind it, Merge with PrependValues / AppendValues of one more element, Merge (default policy) of a list that covers the elements before it, Set*/SetChild behind the end of the list (also one position further, which pads the list), Set*/SetChild over another element; elements addressed by numeric segment, by (name, idx) or through the Child handle of the list (\"\", idx), merges made at the root of the configuration that is read or into the Child handle of the list; the editing calls name the source of the configuration, another source or none; added elements are copies of valid elements (none are added when the fault is a tag that copies would fail as well). For a configuration that was merged into a list (move=list/append/prepend) the element before it may also be removed from the outer list after its handle was obtained. The same history is applied to the valid pair first (it must stay valid). The path demanded is the CURRENT position of the setting (indices recomputed by a model of the edits), the source is still the one it was loaded from. SPELLING (40% of all cases): the generic data the configuration is normalised from (the dump of the valid configuration; for inject=set the fault is then applied through Set*/Remove) is re-written with PathSep in mind: every object and list is, by a decision stored in the case, written nested, or with all its children under dotted keys of the parent (\"a.b.c\", list elements by numeric segments \"l.0.x\"), or piecewise (some children in a nested literal, the others under dotted keys; list elements left out of a literal are nil there); decisions compose over all levels, so keys are fully or partly dotted and objects and lists on the way are implied by dotted keys only. LAYERS (20%): the entries of the (spelled) top-level input are distributed over two inputs that are loaded one after the other (NewFrom, then Merge with the same options; entries contributing to the same list stay together). OPTIONS (40% of all cases): Option values are treated as values. With reuse (4 of 5 of these) ONE MetaData Option value per source name is created for the case and passed to every call naming that source - the load of the valid pair, the load of the faulted configuration, Set*, merges, history edits, relocation and the bystanders - instead of a fresh one per call; in half of them every call naming a source S gets two MetaData options ([MetaData{decoy} (reused), MetaData{S}] or [MetaData{} , MetaData{S}]); and 0-3 BYSTANDER configurations (one out-of-range setting each) are loaded - before anything else, between the valid and the faulted build, or after the faulted configuration got its final shape - by NewFrom, Merge or SetInt with 1-3 MetaData options in any order drawn from the reused values (own source of the case, decoy, Set*/outer/history/relocation sources), fresh named ones and the empty MetaData{}. None of this changes where a setting was loaded from: the source demanded for the fault of the case is unchanged, and after it was read every bystander must still name its setting with the source of the LAST MetaData option of the call that loaded it (none if that one is empty; options apply in order - the behaviour of the library, asserted). Neither changes the content: path and source are demanded as computed from the type descriptor, and whenever the data was re-spelled or layered the naming found in the message (path and source) must be IDENTICAL to what the same case reports when its data is written nested and loaded at once. Unpack - and, for half of the cases where a typed getter can not succeed on the faulted setting (Bool/Int/Uint/Float/String by target kind, Child for objects; list elements addressed by numeric segment or by idx), that getter - must return a ucfg.Error with Reason and Class whose message ENDS in accessing|in field '<path>'<source> with the full dotted path computed from the descriptor and <source> = (source:'<name>') of the call that loaded the faulted value. The source is demanded for values loaded with MetaData (also after merges into a configuration from another source, and for the ${...} setting itself when it expands to the faulted value); it is optional for missing settings, for values stored by Set* without MetaData and for elements inside a collection parsed from delivered text. For a reference (or chain of references) to a literal / Env value: when the faulted setting IS the reference (the expression sits at the fault path) and the fault is a mismatch between the value and the target (unparsable, out of range, wrong type either way, validator, rejected by Unpack) the setting that is READ is demanded with its own source, whatever the target kind, however many references lead to the literal and wherever it lives (the target type belongs to the setting that is read; the referenced setting has none); for faults inside a referenced collection (expression above the fault path) and for collection-level faults both the setting that was read and the setting holding the literal (each with its own source) are accepted; intermediate references are never accepted. Non-trivial: path depth >= 2, or below list/map/pointer/inline field, or moved by a merge, or delivered through an expression, or read after a relocation of its section or after a history of list edits (option reuse alone does not make a case non-trivial). Distinct: hash of the case.",
 	Gen:  genCase,
 	Run:  runCase,
 })
 
-func TestUnpackFault(t *testing.T) { subFault.Check(t, 90000, 3000000) }
+func TestUnpackFault(t *testing.T) { subFault.Check(t, 80000, 3000000) }
 
 func TestReplay(t *testing.T) { runlog.ReplayMain(t) }
